@@ -45,7 +45,9 @@ macro_rules! impl_prim_type_hash {
 
         impl MaxSizeOf for $ty {
             fn max_size_of() -> usize {
-                size_of::<$ty>()
+                // zero-sized types (the unit type) need no alignment: their
+                // unit is 1, so that it is always a valid power-of-two modulus
+                size_of::<$ty>().max(1)
             }
         }
     )*};
@@ -260,7 +262,7 @@ impl<T: ?Sized> CopyType for PhantomData<T> {
 
 impl<T: ?Sized> MaxSizeOf for PhantomData<T> {
     fn max_size_of() -> usize {
-        0
+        1
     }
 }
 
